@@ -60,6 +60,24 @@ static Result run_codec(const Case &c) {
     if (erased_data) r.cls("data_erased");
     if (g.ct == CT_CRC32) r.cls("crc32");
 
+    int guard = (int)c.get("guard", 0);
+    if (guard && c.get("decode", 1)) {
+        // same call with every input on read-only pages ending/starting at guard pages: a write to an input or a
+        // read outside it is a fault (C02: "never read or write outside the buffers they were given")
+        GuardedSet gset; gset.build(frs, align, guard);
+        char *out = nullptr; uint64_t ol = 0;
+        int rc = liberasurecode_decode(in.desc, gset.ptrs, gset.count, s.fraglen, force, &out, &ol);
+        if (rc == 0) { if (ol != data.size() || (ol && memcmp(out, data.data(), ol))) r.fail("decode (guarded inputs) returned success with wrong bytes"); liberasurecode_decode_cleanup(in.desc, out); }
+        else if (rc > 0) r.fail("positive rc");
+        else if (must_exact) r.fail("decode (guarded inputs) failed rc=" + std::to_string(rc) + " although erasures are within tolerance");
+        for (int d : dests) if (d >= 0 && d < n) {
+            std::vector<uint8_t> o(s.fraglen, 0xA5);
+            rc = liberasurecode_reconstruct_fragment(in.desc, gset.ptrs, gset.count, s.fraglen, d, (char *)o.data());
+            if (rc == 0 && o != s.frags[d]) r.fail("reconstruct (guarded inputs) succeeded with different bytes");
+            if (rc < 0 && must_exact) r.fail("reconstruct (guarded inputs) failed within tolerance");
+        }
+        r.cls("guarded_inputs");
+    }
     if (c.get("decode", 1)) {
         FragSet fs; fs.build(frs, align);
         DecodeOut d = decode(in.desc, fs, s.fraglen, force);
@@ -166,6 +184,7 @@ static void gen_arrangement(Case &c, const Config &g, const std::vector<int> &er
     }
     if (allow_dups && !present.empty()) {
         int nd = weighted({6, 2, 1, 1});
+        if (coin(1, 12)) nd = (int)pick(4, 70);          // lists longer than k+m and longer than 32 entries
         for (int j = 0; j < nd; j++) {
             int v = present[pick(0, (int64_t)present.size() - 1)];
             present.insert(present.begin() + pick(0, (int64_t)present.size()), v);
@@ -218,6 +237,7 @@ static Case gen_c02() {
     for (int j = 0; j < nd; j++) dests.push_back((int)pick(0, n - 1));
     c.setv("dests", dests);
     c.set("pool", coin(1, 3) ? 1 : 0);
+    c.set("guard", coin(1, 4) ? (int)pick(1, 65535) : 0);
     return c;
 }
 static Case gen_c03() {
@@ -402,6 +422,8 @@ static void sweep_all_subsets(const RunFn &run, int max_n_xor, int max_n_rs) {
             for (int j = 0; j < n; j++) { int d = (int)((counter + j) % n); if (!(mask >> d & 1)) { dests.push_back(d); break; } }
             for (int j = 0; j < n; j++) { int d = (int)((counter / 3 + j) % n); if (mask >> d & 1) { dests.push_back(d); break; } }
             c.setv("dests", dests);
+            // subsets the code must handle are also presented on guarded read-only pages
+            if (n - __builtin_popcountll(mask) <= ref::tolerance(g) && (counter % 2) == 0) c.set("guard", 1 + (counter & 0x3ff));
             sweep_case(c, run);
         }
     }
@@ -422,6 +444,7 @@ static void sweep_xor_band(const RunFn &run, int max_e_extra) {
                 present_from_erased(c, n, E);
                 c.set("force", 0); c.set("decode", 1);
                 c.setl("dests", {E[counter % E.size()]});
+                c.set("guard", (counter % 3 == 0) ? 1 + (counter & 0xfff) : 0);
                 sweep_case(c, run);
             });
     }
@@ -548,6 +571,70 @@ static Case gen_c20() {
     c.setv("pre", pre);
     c.set("pre_heal", (!pre.empty() && coin(1, 4)) ? 1 : 0);
     return c;
+}
+
+// C05 under concurrency: decoders on an existing instance of shape S while other threads create and destroy
+// further instances of S (the per-shape tables are shared by all instances of the process)
+#include <pthread.h>
+#include <atomic>
+struct C05Mt { Config g; int desc; const Stripe *s; std::atomic<int> *stop; std::string err; int rounds; uint64_t seed; };
+static void *c05_decoder(void *p) {
+    C05Mt &a = *(C05Mt *)p;
+    int n = a.g.n(), t = a.g.hd - 1;
+    uint64_t sd = a.seed;
+    for (int r = 0; r < a.rounds && a.err.empty(); r++) {
+        int e = 2 + (int)(splitmix64(sd) % (t - 1));
+        std::vector<bool> gone(n, false); std::vector<int> E;
+        while ((int)E.size() < e) { int x = (int)(splitmix64(sd) % (E.empty() ? a.g.k : n)); if (!gone[x]) { gone[x] = true; E.push_back(x); } }
+        std::vector<const std::vector<uint8_t> *> frs;
+        for (int i = 0; i < n; i++) if (!gone[i]) frs.push_back(&a.s->frags[i]);
+        FragSet fs; fs.build(frs, {});
+        DecodeOut d = decode(a.desc, fs, a.s->fraglen, 0);
+        if (d.rc != 0) a.err = "decode of " + std::to_string(e) + " erasures (< hd) failed rc=" + std::to_string(d.rc) + " while instances of the same shape are being created";
+        else if (d.out != a.s->data) a.err = "decode returned wrong data while instances of the same shape are being created";
+        FragSet f2; f2.build(frs, {});
+        ReconOut o = reconstruct(a.desc, f2, a.s->fraglen, E[0]);
+        if (a.err.empty() && (o.rc != 0 || o.out != a.s->frags[E[0]])) a.err = "reconstruct failed or differs while instances of the same shape are being created";
+    }
+    a.stop->store(1);
+    return nullptr;
+}
+static void *c05_creator(void *p) {
+    C05Mt &a = *(C05Mt *)p;
+    while (!a.stop->load()) { int d = create(a.g); if (d <= 0) { a.err = "create failed"; break; } liberasurecode_instance_destroy(d); }
+    return nullptr;
+}
+static Result run_c05_mt(const Case &c) {
+    Result r;
+    Config g = cfg_from(c);
+    Instance in(g);
+    if (!in.ok()) { r.fail("create refused"); return r; }
+    Stripe s = encode(in.desc, g, expand_buffer(c, "data"));
+    if (s.rc != 0) { r.fail("encode failed"); return r; }
+    std::atomic<int> stop{0};
+    int nd = (int)c.get("decoders", 2), nc = (int)c.get("creators", 2);
+    std::vector<C05Mt> args(nd + nc);
+    std::vector<pthread_t> th(nd + nc);
+    for (int i = 0; i < nd + nc; i++) { args[i].g = g; args[i].desc = in.desc; args[i].s = &s; args[i].stop = &stop; args[i].rounds = (int)c.get("rounds", 300); args[i].seed = (uint64_t)c.get("seed") + 977 * i; }
+    for (int i = 0; i < nd + nc; i++) pthread_create(&th[i], nullptr, i < nd ? c05_decoder : c05_creator, &args[i]);
+    for (int i = 0; i < nd; i++) pthread_join(th[i], nullptr);
+    stop.store(1);
+    for (int i = nd; i < nd + nc; i++) pthread_join(th[i], nullptr);
+    for (auto &a : args) if (!a.err.empty()) r.fail(a.err);
+    r.nontrivial = true;
+    return r;
+}
+static void sweep_c05_mt() {
+    int shard = (int)opts().shard, ns = (int)opts().nshards;
+    bool th = opts().tier == "thorough";
+    for (int si = 0; si < ref::N_XOR_SHAPES; si++) {
+        if ((si % ns) != shard) continue;
+        const ref::XorShape &sh = ref::XOR_SHAPES[si];
+        Case c; Config g; g.backend = ref::B_XOR; g.k = sh.k; g.m = sh.m; g.hd = sh.hd; g.ct = CT_NONE; cfg_to(c, g);
+        c.set("data_cls", BUF_RANDOM); c.set("data_seed", 4000 + si); c.set("data_len", (int64_t)sh.k * 20);
+        c.set("decoders", 2); c.set("creators", 2); c.set("rounds", th ? 3000 : 400); c.set("seed", opts().seed * 131 + si);
+        sweep_case(c, run_c05_mt);
+    }
 }
 
 // ============================================================================================ C19
@@ -731,6 +818,7 @@ int main(int argc, char **argv) {
     h.mode("c03_xor_sweep", [] { sweep_xor_within(run_c03, opts().tier == "thorough"); }, run_c03);
     h.mode("c03_rs_sweep", [] { sweep_rs_boundary(run_c03, ref::B_RS, true); }, run_c03);
     h.mode("c05_decode_sweep", sweep_xor_c05, run_c05);
+    h.mode("c05_mt", sweep_c05_mt, run_c05_mt);
     h.mode("c19", [] { rc_property("C19 ISA-L adapters", gen_c19, run_c19); }, run_c19);
     h.mode("c19_sweep", sweep_c19, run_c19);
     h.mode("c19_singular", sweep_c19_singular, run_c19);
